@@ -5,5 +5,7 @@ CONSTANTS
   MaxEpochs = 2
   MaxSolvers = 2
   RunLengths <- RunLens
+  UserPwms <- NoUser
+  UserStates <- NoUser
 INVARIANT Witness_DeepRerun
 CHECK_DEADLOCK FALSE
